@@ -228,7 +228,7 @@ impl UFF {
                 }
 
                 "O_2" | "S_2" => {
-                    todo!();
+                    continue; // No inversion constants are defined for these centres
                 }
 
                 x => {
